@@ -251,8 +251,8 @@ class VttContext:
 
     LOGGER.debug(
       "Append ISD from %ss to %ss to VTT content.",
-      float(begin),
-      float(end) if end is not None else "unbounded"
+      begin,
+      end if end is not None else "unbounded"
     )
 
     if end is not None and ClockTime.from_seconds(end) == ClockTime.from_seconds(begin):
